@@ -446,6 +446,7 @@ func decodeKeyByBitmapUint8Stream(d *structDecoder, s *Stream) (*structFieldSet,
 						return nil, "", err
 					}
 					cursor = s.cursor
+					p = s.bufptr() // a refill may have replaced the buffer
 					for _, c := range chars {
 						curBit &= bitmap[keyIdx][largeToSmallTable[c]]
 						if curBit == 0 {
@@ -533,6 +534,7 @@ func decodeKeyByBitmapUint16Stream(d *structDecoder, s *Stream) (*structFieldSet
 						return nil, "", err
 					}
 					cursor = s.cursor
+					p = s.bufptr() // a refill may have replaced the buffer
 					for _, c := range chars {
 						curBit &= bitmap[keyIdx][largeToSmallTable[c]]
 						if curBit == 0 {
@@ -562,7 +564,7 @@ func decodeKeyCharByUnicodeRuneStream(s *Stream) ([]byte, error) {
 	const defaultOffset = 4
 	const surrogateOffset = 6
 
-	if s.cursor+defaultOffset >= s.length {
+	for s.cursor+defaultOffset >= s.length {
 		if !s.read() {
 			return nil, errors.ErrInvalidCharacter(s.char(), "escaped unicode char", s.totalOffset())
 		}
@@ -571,8 +573,10 @@ func decodeKeyCharByUnicodeRuneStream(s *Stream) ([]byte, error) {
 	r := unicodeToRune(s.buf[s.cursor : s.cursor+defaultOffset])
 	if utf16.IsSurrogate(r) {
 		s.cursor += defaultOffset
-		if s.cursor+surrogateOffset >= s.length {
-			s.read()
+		for s.cursor+surrogateOffset >= s.length {
+			if !s.read() {
+				break
+			}
 		}
 		if s.cursor+surrogateOffset >= s.length || s.buf[s.cursor] != '\\' || s.buf[s.cursor+1] != 'u' {
 			s.cursor += defaultOffset - 1
@@ -589,9 +593,16 @@ func decodeKeyCharByUnicodeRuneStream(s *Stream) ([]byte, error) {
 }
 
 func decodeKeyCharByEscapeCharStream(s *Stream) ([]byte, error) {
-	c := s.buf[s.cursor]
-	s.cursor++
 RETRY:
+	c := s.buf[s.cursor]
+	if c == nul {
+		// the escaped character has not been read yet
+		if !s.read() {
+			return nil, errors.ErrInvalidCharacter(s.char(), "escaped char", s.totalOffset())
+		}
+		goto RETRY
+	}
+	s.cursor++
 	switch c {
 	case '"':
 		return []byte{'"'}, nil
@@ -611,11 +622,6 @@ RETRY:
 		return []byte{'\t'}, nil
 	case 'u':
 		return decodeKeyCharByUnicodeRuneStream(s)
-	case nul:
-		if !s.read() {
-			return nil, errors.ErrInvalidCharacter(s.char(), "escaped char", s.totalOffset())
-		}
-		goto RETRY
 	default:
 		return nil, errors.ErrUnexpectedEndOfJSON("struct field", s.totalOffset())
 	}
